@@ -660,4 +660,14 @@ def fam_race(rng, n):
                 steps.append({"op": "sleep", "ms": 2})
         steps += [{"op": "wait_writes"}, {"op": "quiesce", "ms": 1500}]
         out.append({"name": "race/channel_churn/%d" % i, "conf": conf(hb_disable=False, hb_period_ms=3), "endpoints": customs(3), "steps": steps})
+    # stream requests renewed after their 30 s period: known senders on three channels send again, concurrently, at node age
+    # 30.5 s (after the period, before the cleaner's second tick) and at 61 s (one long scenario, runs beside the others)
+    t = Tags(390000)
+    k = 3
+    hbs = lambda: [{"ep": ep, "item": {"kind": "hb", "tag": t.next(), "sys": 1 + (r + ep) % 4, "comp": 1, "autopilot": 3}}
+                   for r in range(8) for ep in range(k)]
+    steps = opens(k) + [{"op": "burst", "items": hbs()}, {"op": "sleep", "ms": 30500}, {"op": "burst", "items": hbs()},
+                        {"op": "burst", "items": hbs()}, {"op": "sleep", "ms": 400}, {"op": "burst", "items": hbs()},
+                        {"op": "quiesce", "ms": 800}]
+    out.append({"name": "race/sr_renewal", "conf": conf(sr_enable=True), "endpoints": customs(k), "steps": steps})
     return out
